@@ -44,6 +44,10 @@ CONSTANTS
                     \*   cl  : the inner handler sets Content-Length
                     \*   acc : "other" | "sse"             Accept: text/event-stream
                     \*   method : "GET" | "HEAD"
+                    \*   vary : "" | "own": the inner handler adds a Vary value of its own (as the reverse proxy copies
+                    \*          an upstream's header: appended to what the compressing handler put there).  It must
+                    \*          arrive, and - the handler instance being shared by all responses - it must not leak
+                    \*          into any other response
                     \*   late : the inner handler sets its response headers only after its informational
                     \*          WriteHeader calls, just before the first final op (how Early Hints are used);
                     \*          the response is the same, so the specification does not look at it
@@ -53,6 +57,12 @@ CONSTANTS
                     \*         - the compress decision is then due at the Flush, BEFORE the header is committed;
                     \* FALSE = the writer offers no Flush and the call is a no-op.  Both are permitted.
     WithFlush,      \* whether handler scripts contain Flush calls at all
+    WithAbort,      \* whether handler scripts may end in an abort: the inner handler gives up with a panic
+                    \* (http.ErrAbortHandler - how the reverse proxy reacts when the upstream or the client goes
+                    \* away while the body is copied).  Nothing is required of the aborted response itself, but
+                    \* everything of the responses served AFTER it by the same instance: the pool must stay sane.
+    AbortPutsBlind, \* FALSE = the design; TRUE = an abort hands "its writer" back to the pool even when the aborted
+                    \* response had none (must break PoolSane)
     PutBeforeFlush  \* FALSE = the design; TRUE = a writer goes back to the pool before it is flushed (must break the invariants)
 
 VARIABLES
@@ -65,7 +75,7 @@ VARIABLES
 vars == <<hs, pool, made, wbuf, wtarget, hist>>
 
 Writers == 1..MaxWriters
-NoReq == [ae |-> "", ct |-> "", enc |-> "", cl |-> FALSE, acc |-> "", method |-> "", late |-> FALSE]
+NoReq == [ae |-> "", ct |-> "", enc |-> "", cl |-> FALSE, acc |-> "", method |-> "", late |-> FALSE, vary |-> ""]
 Idle == [pc |-> "idle", req |-> NoReq, mode |-> "undecided", writer |-> 0, status |-> 0,
          ce |-> "", cl |-> FALSE, inner |-> <<>>, body |-> <<>>, ops |-> <<>>]
 
@@ -191,6 +201,16 @@ Put(h) ==
     /\ pool' = IF hs[h].mode = "gzip" THEN pool \cup {hs[h].writer} ELSE pool
     /\ hs' = [hs EXCEPT ![h].pc = IF PutBeforeFlush THEN "put" ELSE "done"]
 
+\* the inner handler gives up: the response is cut; a writer it held goes back to the pool (whatever it
+\* buffered is dropped by the Reset of the next user) or is discarded
+Abort(h) ==
+    /\ hs[h].pc = "serving" /\ Len(hs[h].ops) < MaxOps
+    /\ hs' = [hs EXCEPT ![h].pc = "aborted", ![h].ops = Append(@, Ev(h, "ab", 0, ""))]
+    /\ pool' = IF AbortPutsBlind THEN pool \cup {hs[h].writer}
+               ELSE IF hs[h].mode = "gzip" THEN pool \cup {hs[h].writer} ELSE pool
+    /\ hist' = Append(hist, Ev(h, "ab", 0, ""))
+    /\ UNCHANGED <<made, wbuf, wtarget>>
+
 FinishFlush(h) == /\ hs[h].pc = IF PutBeforeFlush THEN "put" ELSE "serving"
                   /\ Flush(h)
                   /\ hist' = IF PutBeforeFlush THEN hist ELSE Append(hist, Ev(h, "finish", 0, ""))
@@ -205,6 +225,7 @@ Next == \E h \in Handlers :
           \/ \E c \in Codes : WriteHeader(h, c)
           \/ \E k \in Chunks : Write(h, k)
           \/ (WithFlush /\ FlushOp(h))
+          \/ (WithAbort /\ Abort(h))
           \/ FinishFlush(h)
           \/ FinishPut(h)
 Spec == Init /\ [][Next]_vars
@@ -216,6 +237,8 @@ TypeOK == /\ pool \subseteq 1..made
           /\ made \in 0..MaxWriters
           /\ \A h \in Handlers : hs[h].mode \in {"undecided", "gzip", "plain"}
 
+\* the pool holds writers, nothing else (a "no writer" put into it would be handed to a later response)
+PoolSane == pool \subseteq Writers
 \* a pooled writer is never shared by two live handlers, nor free while in use
 NoSharedWriter == /\ \A h1, h2 \in Handlers : (h1 # h2 /\ Live(h1) /\ Live(h2)) => hs[h1].writer # hs[h2].writer
                   /\ \A h \in Handlers : (hs[h].pc \in {"serving", "flushed"} /\ hs[h].mode = "gzip") =>
